@@ -3,6 +3,8 @@
   `save` stores for the recordings when an audio directory is given.
 -/
 import Proofs.Lemmas.AoefClosure
+import Proofs.Lemmas.PathsWF
+import Proofs.Lemmas.PathsReloc
 namespace SE.Proofs.C18
 open SE SE.Paths SE.Aoef
 
@@ -184,5 +186,177 @@ example : parse "sub dir/ñ.wav" = exX := by unfold parse; rw [splitOn_slash]; d
 example : parse "/data//audio/./" = exA := by unfold parse; rw [splitOn_slash]; decide
 example : parse "///mnt/x" = exB ∧ (parse "//mnt/x").root = "//" := by
   unfold parse; rw [splitOn_slash, splitOn_slash]; decide
+
+/-! ### second review: `parse` yields well-formed paths, the string level of a save / load, the mixed
+    modes (a directory on one side only), and the collection level of relocation -/
+
+/-- every path string parses to a well-formed path (root `""`, `"/"` or `"//"`; no part empty, "." or
+    containing '/'): the hypothesis of `C18_parse_render` holds for whatever `Path(s)` yields -/
+theorem C18_parse_wf (str : String) : (parse str).WF := parse_wf str
+
+/-- `Path(str(Path(s))) == Path(s)` for every string -/
+theorem C18_parse_render_parse (str : String) : parse (render (parse str)) = parse str :=
+  parse_render_parse str
+
+example : parse (render (parse "//data///./audio/../x /")) = parse "//data///./audio/../x /" :=
+  C18_parse_render_parse _
+
+/-- `relative_to` and `/` keep paths well formed -/
+theorem C18_relative_join_wf (p A q x : PPath) :
+    (p.WF → relativeTo p A = .ok q → q.WF) ∧ (A.WF → x.WF → (join A x).WF) :=
+  ⟨fun hp h => relativeTo_wf hp h, fun hA hx => join_wf hA hx⟩
+
+/-- `str` is injective on well-formed paths: the harness may compare rendered strings -/
+theorem C18_render_injective (p q : PPath) (hp : p.WF) (hq : q.WF) (h : render p = render q) : p = q :=
+  render_injective hp hq h
+
+example : exA.WF ∧ exB.WF ∧ render exA ≠ render exB :=
+  ⟨⟨by decide, by decide⟩, ⟨by decide, by decide⟩, by decide +kernel⟩
+
+/-- the string level of one recording: the recording's path string `s`, saved under the directory string
+    `a`, is written as `render q`; whoever reads that string back and joins it under the directory string
+    `b` gets `B/q`, and rendering that path and reading it again changes nothing -/
+theorem C18_string_level (s a b : String) (q : PPath) (h : relativeTo (parse s) (parse a) = .ok q) :
+    parse (render q) = q ∧
+    loadedPath (some (parse b)) (parse (render q)) = join (parse b) q ∧
+    parse (render (join (parse b) q)) = join (parse b) q := by
+  have hq : q.WF := relativeTo_wf (parse_wf s) h
+  have h1 : parse (render q) = q := parse_render q hq
+  exact ⟨h1, by rw [h1]; rfl, parse_render _ (join_wf (parse_wf b) hq)⟩
+
+example : relativeTo (parse "/data//audio/./sub dir/ñ.wav") (parse "/data/audio/") = .ok exX := by
+  unfold parse; rw [splitOn_slash, splitOn_slash]; decide
+
+/-- a directory on the saving side only: the stored relative path comes back as it is -/
+theorem C18_relocate_to_none (A x : PPath) (hx : x.root = "") : relocated (some A) none (join A x) = x := by
+  unfold relocated
+  simp only [storedPath, relativeTo_join A x hx, loadedPath]
+
+example : relocated (some exA) none (join exA exX) = exX := by decide
+
+/-- a directory on the loading side only: the stored path is the recording's own path; an anchored
+    (absolute) one is kept, a relative one is put under the directory -/
+theorem C18_relocate_from_none (B p : PPath) :
+    relocated none (some B) p = join B p ∧
+    (p.root ≠ "" → relocated none (some B) p = p) ∧
+    (p.root = "" → relocated none (some B) p = ⟨B.root, B.parts ++ p.parts⟩) := by
+  refine ⟨rfl, fun h => ?_, fun h => ?_⟩
+  · show join B p = p
+    unfold join; rw [if_pos h]
+  · show join B p = _
+    exact join_relative_root B p h
+
+example : relocated none (some exB) exOut = exOut ∧ relocated none (some exB) exX = join exB exX := by decide
+
+/-- the recordings reachable from a relocated collection are the relocated recordings, by whatever route
+    they are reached (clip, sound event, sequence or ancestor sequence, annotation, prediction, task,
+    match, clip evaluation) -/
+theorem C18_recordings_of_mapPath (c : Collection) (f : PPath → PPath) :
+    recsOf (c.mapPath f).trav = (recsOf c.trav).map (Recording.mapPath f) :=
+  recsOf_trav_mapPath f c
+
+/-- saving under `sd` and loading under `ld` (each a directory or none): loading succeeds and the
+    recordings reachable from the loaded collection are those of the saved one, in the same order, with
+    `relocated sd ld` applied to the path and nothing else changed -/
+theorem C18_loaded_recordings (c : Collection) (sd ld : Option PPath) (d : Doc) (hwf : WF c)
+    (hs : save c sd = .ok d) :
+    ∃ c', load d ld = .ok c' ∧
+      recsOf c'.trav = (recsOf c.trav).map (Recording.mapPath (relocated sd ld)) :=
+  ⟨_, roundtrip_general c sd ld d hwf hs, recsOf_trav_mapPath _ c⟩
+
+/-- the property at the level of a collection: when every reachable recording lies inside `A`, saving
+    under `A` succeeds, loading under `B` succeeds, and every recording reachable from the loaded
+    collection is the corresponding recording `A/x` of the saved one, now at `B/x` -/
+theorem C18_relocate_collection (c : Collection) (A B : PPath) (hwf : WF c)
+    (hin : ∀ r ∈ recsOf c.trav, inside r.path A) :
+    ∃ d c', save c (some A) = .ok d ∧ load d (some B) = .ok c' ∧
+      recsOf c'.trav = (recsOf c.trav).map (Recording.mapPath (relocated (some A) (some B))) ∧
+      ∀ r ∈ recsOf c.trav, ∃ x : PPath, x.root = "" ∧ r.path = join A x ∧
+        relocated (some A) (some B) r.path = join B x := by
+  obtain ⟨d, hd⟩ := C18_inside_succeeds c A hin
+  obtain ⟨c', hl, hrecs⟩ := C18_loaded_recordings c (some A) (some B) d hwf hd
+  refine ⟨d, c', hd, hl, hrecs, fun r hr => ?_⟩
+  have hrel := relativeTo_inside r.path A (hin r hr)
+  refine ⟨_, rfl, (join_relativeTo _ _ _ hrel).symm, ?_⟩
+  unfold relocated
+  simp only [storedPath, hrel, loadedPath]
+
+example : WF exGood ∧ ∀ r ∈ recsOf exGood.trav, inside r.path exA := ⟨WF_of_wfB (by decide), by decide⟩
+example : ∃ d c', save exGood (some exA) = .ok d ∧ load d (some exB) = .ok c' ∧
+    (recsOf c'.trav).map (·.path) = [⟨"/", ["mnt", "x", "sub dir", "ñ.wav"]⟩] := ⟨_, _, rfl, rfl, by decide⟩
+
+/-- without audio directories: saving succeeds, every stored path is the recording's own path, and
+    loading gives the collection back -/
+theorem C18_passthrough_collection (c : Collection) (hwf : WF c) :
+    ∃ d, save c none = .ok d ∧
+      (∀ o ∈ lst d.recordings, ∃ r ∈ recsOf c.trav, o.uuid = r.uuid ∧ o.path = r.path) ∧
+      ∃ c', load d none = .ok c' ∧ recsOf c'.trav = recsOf c.trav := by
+  have hd := save_total c
+  refine ⟨_, hd, ?_, ?_⟩
+  · obtain ⟨rs, hrs, spec⟩ := save_spec hd
+    rw [spec.recordings]
+    intro o ho
+    obtain ⟨r, hr, henc⟩ := forall₂_mem_right (mapM_ok_forall₂.1 hrs) o ho
+    obtain ⟨q, hq, rfl⟩ := encRecording_ok_iff.1 henc
+    simp only [storedPath, Except.ok.injEq] at hq
+    exact ⟨r, recSrc_subset hr, rfl, hq.symm⟩
+  · obtain ⟨c', hl, hrecs⟩ := C18_loaded_recordings c none none _ hwf hd
+    refine ⟨c', hl, ?_⟩
+    rw [hrecs]
+    conv => rhs; rw [← List.map_id (recsOf c.trav)]
+    exact List.map_congr_left (fun r _ => rfl)
+
+example : WF exBad := WF_of_wfB (by decide)
+
+
+/-! ### the adapter table (Tie 1): regenerated on every run by introspection of `soundevent.io.aoef.ADAPTERS` -/
+
+/-- one row of the adapter table as observed on the imported code: the collection type, the number of
+    distinct recording adapters reachable from the collection adapter that `to_aeof` / `to_soundevent`
+    build with a directory, what each of them does with a recording below that directory
+    (`assemble_aoef` stores it relative, fails for one outside; `assemble_soundevent` joins), and that
+    the adapter built without a directory passes paths through on both sides -/
+structure AdapterRow where
+  type : String
+  recAdapters : Nat
+  storesRelative : Bool
+  failsOutside : Bool
+  joinsOnLoad : Bool
+  passThrough : Bool
+  deriving DecidableEq, Repr
+
+def AdapterRow.ok (r : AdapterRow) : Bool :=
+  r.recAdapters == 1 && r.storesRelative && r.failsOutside && r.joinsOnLoad && r.passThrough
+
+/-- the `collection_type`s of the eight constructors of the model -/
+def allTypeNames : List String :=
+  ["recording_set", "dataset", "annotation_set", "annotation_project", "evaluation_set", "prediction_set",
+   "model_run", "evaluation"]
+
+/-- every collection type of the model has a row, and the row is as the model assumes: *one* recording
+    adapter per collection adapter (so every route to a recording goes through it) that got the
+    directory -/
+def ThreadsDir (tbl : List AdapterRow) : Prop :=
+  ∀ t ∈ allTypeNames, ∃ r ∈ tbl, r.type = t ∧ r.ok = true
+
+instance (tbl : List AdapterRow) : Decidable (ThreadsDir tbl) := by unfold ThreadsDir; exact inferInstance
+
+/-- a well-formed adapter table covers every constructor of the model: whatever collection is saved or
+    loaded, its adapter has exactly one recording adapter, which stores relative to the directory, fails
+    outside it, joins on load, and passes paths through without a directory — the shape `save` / `load`
+    of the model have (one `dir`, one recording table) -/
+theorem C18_adapter_table (tbl : List AdapterRow) (h : ThreadsDir tbl) (c : Collection) :
+    ∃ r ∈ tbl, r.type = c.typeName ∧ r.recAdapters = 1 ∧ r.storesRelative = true ∧ r.failsOutside = true ∧
+      r.joinsOnLoad = true ∧ r.passThrough = true := by
+  have hmem : c.typeName ∈ allTypeNames := by cases c <;> simp [Collection.typeName, allTypeNames]
+  obtain ⟨r, hr, ht, hok⟩ := h _ hmem
+  simp only [AdapterRow.ok, Bool.and_eq_true, beq_iff_eq] at hok
+  obtain ⟨⟨⟨⟨h1, h2⟩, h3⟩, h4⟩, h5⟩ := hok
+  exact ⟨r, hr, ht, h1, h2, h3, h4, h5⟩
+
+example : ThreadsDir (allTypeNames.map fun t => ⟨t, 1, true, true, true, true⟩) := by decide
+example : ¬ ThreadsDir ((allTypeNames.map fun t => ⟨t, 1, true, true, true, true⟩).tail) := by decide
+example : ¬ ThreadsDir (allTypeNames.map fun t => ⟨t, if t = "model_run" then 2 else 1, true, true, true, true⟩) := by
+  decide
 
 end SE.Proofs.C18
